@@ -1105,6 +1105,7 @@ func Run(r *evid.Run) {
 	interfaceFuncs(r)
 	repeatedUse(r)
 	byteStyleErrors(r)
+	round7(r)
 	marshalPolicing(r, "c17")
 	unmarshalPolicing(r)
 	insideCall(r)
